@@ -602,7 +602,7 @@ def val4(ctx, pid):
                     exits["other"] += 1
                     detail.append(str(p.exit[:2]))
             elif p.exit[0] == "return":
-                rv = p.exit[1].value
+                rv = util.path_deref(p, p.exit[1].value)
                 if isinstance(rv, ast.Name) and rv.id == f.params[1]:
                     # identity only under `type(nibbles) is Nibbles`
                     ok = any(ev.k == "assume" and ev.a is True and "type(%s)isNibbles" % f.params[1] == ast.unparse(ev.node).replace(" ", "") for ev in p.events)
@@ -630,8 +630,11 @@ def val4(ctx, pid):
         else:
             ctx.ok(c, f.loc(), "three exit kinds: identity under exact type test, TypeError for non-list-like, element-wise Nibble(..) conversion")
         # the list-like test guards the TypeError
-        src = ast.unparse(f.node).replace(" ", "")
-        if "notis_list_like(%s)" % f.params[1] in src:
+        guarded = []
+        for p in ctx.X.paths(f):
+            if p.exit[0] == "raise" and p.exit[1] == "TypeError":
+                guarded.append(any(ev.k == "assume" and ev.a is False and ast.unparse(ev.node).replace(" ", "") == "is_list_like(%s)" % f.params[1] for ev in p.events))
+        if guarded and all(guarded):
             ctx.ok("listlike:Nibbles.__new__", f.loc(), "TypeError is guarded by `not is_list_like(..)`", nontrivial=False)
         else:
             ctx.bad("listlike:Nibbles.__new__", f.loc(), "the non-list-like test guarding TypeError is gone")
@@ -649,7 +652,7 @@ def val4(ctx, pid):
             ctx.bad("constructor-bypass:Nibbles.%s" % byp[0].name, byp[0].loc(byp[1]), "`%s` builds a Nibbles without the per-element validation of Nibbles.__new__ (the exact-type fast path would then trust it everywhere)" % ast.unparse(byp[1])[:60])
         elif add is not None:
             rets = [n_ for n_ in walk_shallow(add.node) if isinstance(n_, ast.Return)]
-            ok = rets and all(isinstance(r.value, ast.Call) and ast.unparse(r.value.func) in ("Nibbles", "type(self)", "self.__class__") for r in rets)
+            ok = rets and all(isinstance(util.ret_deref(add, r), ast.Call) and ast.unparse(util.ret_deref(add, r).func) in ("Nibbles", "type(self)", "self.__class__") for r in rets)
             if ok:
                 ctx.ok("constructor-bypass:Nibbles", add.loc(), "concatenation re-validates through Nibbles(..)")
             else:
